@@ -40,7 +40,21 @@ Theorem C06_source_error_propagates :
     bs (add_unique_child wrapper root) = Err e -> extend_struct_rs bs root = Err e.
 Proof. exact extend_struct_rs_error. Qed.
 
+(* non-vacuity: a parse, an extension that demotes the attribute and adds a child, an extension that
+   fails with the reader's error and position, an input without an element *)
+Example C06_source_example :
+  let loop evs := fun r => build_struct (fuel_for evs) evs r [] in
+  let d1 := [EStart (ROk (s "a")) [AOk (ROk (s "k"))]; EText (ROk tt); EEnd] in
+  let d2 := [EStart (ROk (s "a")) []; EEmpty (ROk (s "b")) []; EEnd] in
+  (exists e, into_struct_rs (loop d1) = Ok e /\ ename e = s "a" /\ eattrs e = [(Mand, s "k")]
+             /\ exists e2, extend_struct_rs (loop d2) e = Ok e2 /\ eattrs e2 = [(Opt, s "k")]
+                           /\ List.length (echildren e2) = 1%nat
+                           /\ extend_struct_rs (loop [EErr 3 7]) e = Err (QuickXmlError 3 7))
+  /\ into_struct_rs (loop [EMisc]) = Err NoRootError.
+Proof. exact entry_source_example. Qed.
+
 Print Assumptions C06_source_into_struct.
+Print Assumptions C06_source_example.
 Print Assumptions C06_source_extend_struct.
 Print Assumptions C06_source_into_struct_model.
 Print Assumptions C06_source_extend_struct_model.
